@@ -8,7 +8,7 @@
    closed, the registered cleanups ran exactly once, exactly one terminal notification of the matching kind was
    sent and none of another kind, stepping has ended. *)
 From Coq Require Import List String Bool ZArith.
-From Plumpy Require Import Val Mon PortModel Model Run LifeSx LifeFx LifePath LifeBook LifeOutcome LifeAgree.
+From Plumpy Require Import Val Mon PortModel Model Run LifeSx LifeFx LifePath LifeBook LifeOutcome LifeAgree LifeWake.
 Import ListNotations.
 
 (* AT EVERY POINT OF EVERY RUN — any program, any listener scripts (with re-entrant control calls: kill from a listener,
@@ -68,6 +68,17 @@ Theorem C02_terminated_iff_closed :
     closed w = is_terminated w /\ hooks_alive w = negb (is_terminated w).
 Proof. exact terminated_iff_closed. Qed.
 Print Assumptions C02_terminated_iff_closed.
+
+(* "step_until_terminated() returns": in every run, once the process has terminated and the loop has nothing left to run, the
+   stepping task has returned — unless the task itself failed, or the step is still blocked in the program's own await of an
+   environment future that nobody completed.  Consequence of the wake-up invariant W of Life/LifeWake.v (every suspended
+   stepping task is going to be woken), which holds at every point of every run. *)
+Theorem C02_stepping_task_returns :
+  forall c es w, cf_fault c = None -> run c es = Some w -> is_terminated w = true -> ready w = [] ->
+    t0 w = PcDone \/ (exists e, t0 w = PcFailed e)
+    \/ (exists rest r k, t0 w = PcInStep rest r (Some k) /\ find (fun kw => Nat.eqb (fst kw) k) (exts w) = None).
+Proof. exact stepping_returns. Qed.
+Print Assumptions C02_stepping_task_returns.
 
 (* the hypotheses are met by a run that ends in each of the three terminal states and by a live one *)
 Example C02_reports_agree_nonvacuous :
